@@ -8,18 +8,18 @@ Import ListNotations.
    behaviour of the primitive operations; comparisons return bools). *)
 Theorem c02_walker_is_python :
   forall T O, cmp_returns_bool O ->
-  forall e, in_subset T O e = true -> forall s, same (fst (eval T O e s)) (py_eval O e).
+  forall e, in_subset T e = true -> forall s, same (fst (eval T O e s)) (py_eval O e).
 Proof. exact walker_is_python. Qed.
 Print Assumptions c02_walker_is_python.
 
 Theorem c02_agree :
-  forall T O e s v, cmp_returns_bool O -> in_subset T O e = true ->
+  forall T O e s v, cmp_returns_bool O -> in_subset T e = true ->
     fst (eval T O e s) = Ok v -> py_eval O e = Ok v.
 Proof. exact agree_proof. Qed.
 Print Assumptions c02_agree.
 
 Theorem c02_errors_propagate :
-  forall T O e s k, cmp_returns_bool O -> in_subset T O e = true ->
+  forall T O e s k, cmp_returns_bool O -> in_subset T e = true ->
     py_eval O e = Err k -> exists k', fst (eval T O e s) = Err k'.
 Proof. exact errors_propagate_proof. Qed.
 Print Assumptions c02_errors_propagate.
@@ -29,7 +29,7 @@ Theorem c02_math_pathway :
   forall max_len T O reg allowed env e,
     cmp_returns_bool O -> guards_pass max_len env ->
     m_forced env = Some Glycolysis \/ (m_forced env = None /\ m_detect env = Glycolysis) ->
-    m_parse env = Returns e -> in_subset T O e = true ->
+    m_parse env = Returns e -> in_subset T e = true ->
     fst (metabolize true max_len T O reg allowed env) =
     match py_eval O e with Ok v => MSuccess v | Err _ => MFailure end.
 Proof. exact math_pathway_proof. Qed.
@@ -41,7 +41,7 @@ Theorem c02_logic_pathway :
   forall max_len T O reg allowed env e,
     cmp_returns_bool O -> guards_pass max_len env ->
     m_forced env = Some Krebs \/ (m_forced env = None /\ m_detect env = Krebs) ->
-    m_parse env = Returns e -> in_subset T O (normalize_tf e) = true ->
+    m_parse env = Returns e -> in_subset T (normalize_tf e) = true ->
     fst (metabolize true max_len T O reg allowed env) =
     match py_eval O (normalize_tf e) with
     | Ok v => MSuccess (if o_truthy O v then o_true O else o_false O)
